@@ -36,6 +36,20 @@ def cases(tier, seed):
         c["name"] = "%04d-%s-w%d-x%d-d%d-%s" % (k, "bypass" if bypass else "plain", dw, ratio, depth_words, c["schedule"])
         c["cost"] = depth_words * ratio * c["factor"]
         out.append(c)
+    # the FIFO between a write port and a read port of the real crossbar + controller + reference DRAM
+    for k in range(10 if tier == "quick" else 80):
+        r = random.Random("C13/%d/%s/core/%d" % (seed, tier, k))
+        bypass = (k % 2) == 1
+        ratio = (2 if k % 10 == 9 else 1) if bypass else 1
+        dw = r.choice([16, 32])
+        depth_words = r.choice([8, 16, 32])
+        c = dict(core=True, bypass=bypass, ratio=ratio, dw=dw, depth_words=depth_words, base_words=r.choice([0, 48, 1000]),
+                 schedule=SCHEDULES[k % len(SCHEDULES)], factor=r.randint(5, 8), cmd_ready_prob=1.0, extra_lat=(0, 0), long_stall=0,
+                 pre=r.choice([16, 4]), post=r.choice([16, 4]), cmd_buffer_depth=r.choice([4, 8, 16]), refresh=(k % 5 != 4),
+                 seed="C13/%d/core/%d" % (seed, k))
+        c["name"] = "core%03d-%s-w%d-x%d-d%d-%s" % (k, "bypass" if bypass else "plain", dw, ratio, depth_words, c["schedule"])
+        c["cost"] = depth_words * ratio * c["factor"] * 6
+        out.append(c)
     return out
 
 
@@ -90,10 +104,21 @@ def run_case(c):
                                                 write_port=self.wport, read_port=self.rport, with_bypass=c["bypass"],
                                                 pre_fifo_depth=c["pre"], post_fifo_depth=c["post"])
 
-    dut = DUT()
-    store = Store(pb)
-    stub = CoreStub([dut.wport, dut.rport], store, r, cmd_ready_prob=c["cmd_ready_prob"], extra_lat=tuple(c["extra_lat"]),
-                    long_stall=c["long_stall"], max_outstanding=48)
+    if c.get("core"):
+        from ..corebackend import CoreBackend
+        stub = CoreBackend(2, databits=pdw, refresh=c["refresh"], cmd_buffer_depth=c["cmd_buffer_depth"],
+                           port_specs=[dict(mode="write"), dict(mode="read")])
+        dut = stub.dut
+        dut.submodules.fifo = LiteDRAMFIFO(dw, base=c["base_words"] * pb, depth=c["depth_words"] * pb, write_port=stub.ports[0],
+                                           read_port=stub.ports[1], with_bypass=c["bypass"], pre_fifo_depth=c["pre"],
+                                           post_fifo_depth=c["post"])
+        mem_procs = stub.processes()
+    else:
+        dut = DUT()
+        store = Store(pb)
+        stub = CoreStub([dut.wport, dut.rport], store, r, cmd_ready_prob=c["cmd_ready_prob"], extra_lat=tuple(c["extra_lat"]),
+                        long_stall=c["long_stall"], max_outstanding=48)
+        mem_procs = [stub.process()]
     total = c["depth_words"] * ratio * c["factor"]
     mask = (1 << dw) - 1
     # unique tags: position folded into the word (wraps for 8-bit streams, so also compare positions by count)
@@ -160,10 +185,10 @@ def run_case(c):
             return True
         return False
 
-    cycles, reason = run_sim(dut, [stub.process(), driver()], done_fn, 2000000, wall_limit=900)
+    cycles, reason = run_sim(dut, mem_procs + [driver()], done_fn, 2000000, wall_limit=900)
     if reason == "wall":
         return dict(verdict="inconclusive", why="wall-clock watchdog", violations=[], stats={}, nontrivial=False, signature="")
-    v = list(stub.events)
+    v = list(stub.events) + (stub.dfi_events() if c.get("core") else [])
     got = state["got"]
     exp = words[:len(got)]
     if got != exp:
@@ -213,7 +238,7 @@ def run_case(c):
     nontrivial = len(got) >= 5 * c["depth_words"] and (st["wraps"] >= 2 or (c["bypass"] and st["roundtrips"] >= 2))
     if not c["bypass"]:
         nontrivial = len(got) >= 5 * c["depth_words"] and st["wraps"] >= 2
-    sig = "|".join(str(x) for x in (c["bypass"], dw, ratio, c["depth_words"], c["schedule"]))
+    sig = "|".join(str(x) for x in (c["bypass"], dw, ratio, c["depth_words"], c["schedule"], bool(c.get("core"))))
     return dict(verdict="violated" if v else "held", violations=v[:8], stats=st, nontrivial=bool(nontrivial) or bool(v), signature=sig)
 
 
